@@ -673,7 +673,15 @@ fn main() {
                 }
             }
             out.impl_checks += seq.len() as u64;
-            let first_diff = (0..seq.len()).find(|&j| obs1[j] != obsn[j]);
+            // RANDOMKEY may answer any key of the store it looks at (hash-map iteration order, seeded per
+            // process): only "some key" vs "nil" is compared between the two instances
+            let blur = |r: &Rq, v: &RespValue| -> RespValue {
+                match (r, v) {
+                    (Rq::Gen(Command::RandomKey), RespValue::BulkString(Some(_))) => RespValue::BulkString(Some(b"<some key>".to_vec())),
+                    _ => v.clone(),
+                }
+            };
+            let first_diff = (0..seq.len()).find(|&j| blur(&seq[j], &obs1[j]) != blur(&seq[j], &obsn[j]));
             if let Some(j) = first_diff {
                 let class_before = seq[..=j].iter().position(|r| cross(r).is_some());
                 let scan_before = seq[..=j].iter().position(|r| matches!(r, Rq::Gen(Command::Scan { .. })));
@@ -708,7 +716,7 @@ fn main() {
                     println!("  {}", f);
                 }
                 for (j, r) in seq.iter().enumerate() {
-                    let mark = if obs1[j] != obsn[j] { "  <-- DIFFERS" } else { "" };
+                    let mark = if blur(r, &obs1[j]) != blur(r, &obsn[j]) { "  <-- DIFFERS" } else { "" };
                     println!("  [{}] {}\n        1 shard : {}\n        {} shards: {}{}", j, rq_text(r), show(&obs1[j]), n, show(&obsn[j]), mark);
                 }
             }
